@@ -31,6 +31,7 @@ Apply(e) ==
     [] e.op = "set_T"             -> SetT(e.arg)
     [] e.op = "set_t0"            -> SetT0(e.arg)
     [] e.op = "set_value"         -> SetValue(e.arg)
+    [] e.op = "set_value_cat"     -> SetValueCat(e.arg)
     [] e.op = "set_initial"       -> SetInitial(e.arg)
     [] e.op = "sample"            -> Sample
     [] e.op = "value"             -> Value
@@ -41,11 +42,11 @@ Apply(e) ==
 
 (* what the NLP of abstract declaration d looks like through the recorder's projection *)
 Proj(d) == [ext |-> d.ext, k0 |-> Count(d.cons, "k0"), ka |-> Count(d.cons, "ka"), kb |-> Count(d.cons, "kb"),
-            nobj |-> d.nobj, T |-> d.T, t0 |-> d.t0, pval |-> d.pval, guess |-> d.guess, meth |-> d.meth]
+            nobj |-> d.nobj, T |-> d.T, t0 |-> d.t0, pval |-> d.pval, qval |-> d.qval, guess |-> d.guess, meth |-> d.meth]
 
 Failing(e, d2, live2, tflag2, out2) ==
   LET ref == IF tflag2 THEN live2 ELSE d2          \* an implementation may keep a cache that is still current
-      fields == {"ext", "k0", "ka", "kb", "nobj", "T", "t0", "pval", "guess", "meth"}
+      fields == {"ext", "k0", "ka", "kb", "nobj", "T", "t0", "pval", "qval", "guess", "meth"}
   IN (IF e.out # out2 THEN {<<"C13.d:outcome", l, e.op>>} ELSE {})
      \cup (IF e.out = "ok" /\ e.tflag
            THEN {<<"C13.a:" \o f, l, e.op>> : f \in {g \in fields : e.live[g] # Proj(ref)[g]}}
